@@ -194,7 +194,7 @@ pub fn run(ctx: &Ctx) -> ! {
     let mut rep = Report::new(
         ctx,
         "fault_enumeration",
-        "both clients (blocking ureq; async reqwest on a tokio runtime) against a hand-written loopback HTTP/1.1 peer. Request side: requests x payload {none, 1 B, 70 000 B, 70 000 B from a blocking source that reports Interrupted three times (, 3 MiB from a fragmenting source)} x client configuration {none, 1-3 custom headers incl. user-agent override, basic auth with 4 credential shapes} x target path {/, /printers/x, /a%20b?q=1&r=2, /printers/jdoe@corp, /p?user=a@b} x scheme {http, ipp}; and target shapes {ipp, http} x host {127.0.0.1, localhost} x user-info(4) x path(7) x query(5) (with '@', ':' and '/' in path and query) x configuration {plain, basic_auth, custom header, Authorization header}: request target, Host, one connection -> exactly one connection, POST, exact target, Host, content-type, headers, Basic credentials, body = request + payload (decoded by R1). A request object serialised once (to_bytes), then changed (header fields, attributes, payload), then sent must go out in its current state. Response side: responses x trailing data {none, 3 B, 70 000 B} x framing {content-length, chunked, close-delimited} x write plan {one write, one byte per write, EVERY two-piece split}. Resets: the connection reset (RST) after 64 request bytes / after the whole request with later connections served normally - no second POST, and an error. Huge bodies: a response document and a request payload of 256 MiB + 4097 (1 GiB + 4097) bytes streamed from a pattern generator and verified on the fly, under each framing. Failures: every HTTP status 400-599 with and without an IPP body; connection cut after EVERY offset of header+attributes under each framing and inside the HTTP head; stalled server with and without request_timeout. History: two sequential sends through one client value with the first exchange ending in 8 different ways (ok, 500, 404 with IPP body, cut in attributes, cut in head, chunked, close-delimited, IPP error status): the second must be one fresh POST with its own response. Concurrency: N = 2, 3 (4) senders through one client, the peer collects all N requests and answers in EVERY one of the N! orders. distinct = exchange script; non-trivial = exchange with a fault, fragmentation or non-default configuration",
+        "both clients (blocking ureq; async reqwest on a tokio runtime) against a hand-written loopback HTTP/1.1 peer. Request side: requests x payload {none, 1 B, 70 000 B, 70 000 B from a blocking source that reports Interrupted three times (, 3 MiB from a fragmenting source)} x client configuration {none, 1-3 custom headers incl. user-agent override, basic auth with 4 credential shapes} x target path {/, /printers/x, /a%20b?q=1&r=2, /printers/jdoe@corp, /p?user=a@b} x scheme {http, ipp}; and target shapes {ipp, http} x host {127.0.0.1, localhost} x user-info(4) x path(7) x query(5) (with '@', ':' and '/' in path and query) x configuration {plain, basic_auth, custom header, Authorization header}: request target, Host, one connection -> exactly one connection, POST, exact target, Host, content-type, headers, Basic credentials, body = request + payload (decoded by R1). A request object serialised once (to_bytes), then changed (header fields, attributes, payload), then sent must go out in its current state. Response side: responses x trailing data {none, 3 B, 70 000 B} x framing {content-length, chunked, close-delimited} x write plan {one write, one byte per write, EVERY two-piece split}; five further spellings of the Content-Type line (other case of media type and header name, a parameter, no blank after the colon, a trailing blank) under each framing. Resets: the connection reset (RST) after 64 request bytes / after the whole request with later connections served normally - no second POST, and an error. Huge bodies: a response document and a request payload of 256 MiB + 4097 (1 GiB + 4097) bytes streamed from a pattern generator and verified on the fly, under each framing. Failures: every HTTP status 400-599 with no body, a successful IPP body, an IPP body carrying an error status, and the latter labelled text/html; connection cut after EVERY offset of header+attributes under each framing and inside the HTTP head; stalled server with and without request_timeout. History: two sequential sends through one client value with the first exchange ending in 8 different ways (ok, 500, 404 with IPP body, cut in attributes, cut in head, chunked, close-delimited, IPP error status): the second must be one fresh POST with its own response. Concurrency: N = 2, 3 (4) senders through one client, the peer collects all N requests and answers in EVERY one of the N! orders. distinct = exchange script; non-trivial = exchange with a fault, fragmentation or non-default configuration",
     );
     rep.assume("interleavings inside hyper / tokio / ureq are not under a controlled scheduler; send(&self) builds a fresh agent and connection per call, so the only cross-request channel is the peer's answer order, which is enumerated");
     rep.assume("verdicts depend only on outcome classes that are stable under TCP coalescing");
@@ -383,11 +383,31 @@ pub fn run(ctx: &Ctx) -> ! {
             }
         }
     }
+    // spellings of the response's Content-Type line a server may legitimately use (media types and header names are
+    // case-insensitive, parameters are allowed); index 0 is the plain one
+    const CONTENT_TYPES: [Option<&str>; 6] = [
+        None,
+        Some("Content-Type: application/IPP"),
+        Some("content-type: Application/Ipp"),
+        Some("Content-Type: application/ipp; charset=utf-8"),
+        Some("Content-Type:application/ipp"),
+        Some("CONTENT-TYPE: application/ipp "),
+    ];
+    let njobs = jobs.len();
+    for c in 0..2 {
+        for ct in 1..CONTENT_TYPES.len() {
+            for f in [Framing::ContentLength, Framing::Chunked, Framing::Close] {
+                jobs.push((c, 1000 + ct, 1, f, Plan::OneWrite));
+            }
+        }
+    }
+    let _ = njobs;
     let req0 = reqs[1].clone();
     let mut s = Stats::new();
     for p in par_range(ctx.threads, jobs.len() as u64, 4, || (Stats::new(), runtime()), |acc, idx| {
         let (st, rt) = acc;
         let (c, ri, tr, f, plan) = jobs[idx as usize].clone();
+        let (ri, ct) = if ri >= 1000 { (0usize, CONTENT_TYPES[ri - 1000]) } else { (ri, None) };
         let kind = kinds[c];
         let m = &resps[ri].1;
         let trailing: Vec<u8> = match tr {
@@ -399,13 +419,13 @@ pub fn run(ctx: &Ctx) -> ! {
         body.extend_from_slice(&trailing);
         let mut expect = m.canon();
         expect.data = trailing;
-        let case = json!({"section": "response", "client": kind.name(), "response": resps[ri].0, "trailing": tr, "framing": format!("{:?}", f), "plan": format!("{:?}", plan)});
+        let case = json!({"section": "response", "client": kind.name(), "response": resps[ri].0, "trailing": tr, "framing": format!("{:?}", f), "plan": format!("{:?}", plan), "content_type_line": ct});
         st.evaluations += 1;
         st.traces += 1;
         st.transitions += body.len() as u64;
         st.states.insert(idx | 2 << 40);
         st.nontrivial.insert(idx | 2 << 40);
-        let script = Script { framing: f, plan, ..Script::ok(body) };
+        let script = Script { framing: f, plan, content_type: ct, ..Script::ok(body) };
         let (result, _ex, _extra, _, _) = exchange(kind, rt, "http", "/ipp", &Config::default(), build_ipp(&req0), script);
         match result {
             Ok(got) => match expect.diff(&got) {
@@ -430,19 +450,31 @@ pub fn run(ctx: &Ctx) -> ! {
     // ---------------- (3) HTTP error statuses
     let mut s = Stats::new();
     let good = r1::encode(&resps[0].1);
-    for p in par_range(ctx.threads, 2 * 200 * 2, 4, || (Stats::new(), runtime()), |acc, idx| {
+    // body kinds: none; a successful IPP response; an IPP response with an ERROR status (what a real printer sends
+    // along with an HTTP error); the same labelled text/html
+    let ipp_error_body = {
+        let mut m = resps[0].1.clone();
+        m.code = 0x0404;
+        r1::encode(&m)
+    };
+    for p in par_range(ctx.threads, 2 * 200 * 4, 4, || (Stats::new(), runtime()), |acc, idx| {
         let (st, rt) = acc;
-        let t = vmc::explore::unrank(idx, &[2, 200, 2]);
+        let t = vmc::explore::unrank(idx, &[2, 200, 4]);
         let kind = kinds[t[0] as usize];
         let status = 400 + t[1] as u16;
-        let body = if t[2] == 1 { good.clone() } else { vec![] };
-        let case = json!({"section": "status", "client": kind.name(), "status": status, "with_ipp_body": t[2] == 1});
+        let body = match t[2] {
+            0 => vec![],
+            1 => good.clone(),
+            _ => ipp_error_body.clone(),
+        };
+        let body_name = ["none", "successful IPP response", "IPP response with status 0x0404", "IPP response with status 0x0404 labelled text/html"][t[2] as usize];
+        let case = json!({"section": "status", "client": kind.name(), "status": status, "body": body_name});
         st.evaluations += 1;
         st.traces += 1;
         st.transitions += 1;
         st.states.insert(idx | 3 << 40);
         st.nontrivial.insert(idx | 3 << 40);
-        let script = Script { status, ..Script::ok(body) };
+        let script = Script { status, content_type: if t[2] == 3 { Some("Content-Type: text/html") } else { None }, ..Script::ok(body) };
         let (result, _, extra, _, _) = exchange(kind, rt, "http", "/ipp", &Config::default(), build_ipp(&req0), script);
         if extra > 0 {
             st.violate(format!("{}:second-connection-after-http-error", kind.name()), format!("{}: {} further connection(s): a request is POSTed exactly once", case, extra), case.clone());
